@@ -83,7 +83,10 @@ def builders(f, rep):
                     if old[fld] in _or_parts(new) and consts: or_consts.setdefault((fld, consts[0][1]), []).append(name)
             if name not in table:
                 # plain setter: writes exactly the field of its own name with its single argument
-                if len(ps) == 2 and _top(eff) <= {name} and (not eff or _same(post.fields[name], args[0])):
+                if len(ps) == 2 and name in pre.fields and not eff and not _same(pre.fields[name], args[0]):
+                    # a setter named after a field of its type that leaves the object untouched drops the caller's value
+                    rep.ob('setter', subj, False, 'method %s is named after field %s but has no effect: the value given is dropped' % (name, name), sp=b['sp'], detail={'writes': []})
+                elif len(ps) == 2 and _top(eff) <= {name} and (not eff or _same(post.fields[name], args[0])):
                     rep.ob('setter', subj, True, detail={'field': name}); n_builders += 1
                 elif not eff:
                     rep.ob('setter', subj, True, detail={'effect': 'none'})
